@@ -179,6 +179,7 @@ type Val struct {
 	S     []byte
 	A     []Val
 	Names []string
+	Null  bool // a nil slice: the wire's null array (an empty array is a non-nil slice of length 0)
 }
 
 // ImplVal reads a payload value of the dissector by reflection (not through JSON).
@@ -210,7 +211,7 @@ func ImplVal(v reflect.Value) Val {
 		if t.Elem().Kind() == reflect.Uint8 {
 			return Val{K: "bytes", S: append([]byte(nil), v.Bytes()...)}
 		}
-		out := Val{K: "arr"}
+		out := Val{K: "arr", Null: v.IsNil()}
 		for i := 0; i < v.Len(); i++ {
 			out.A = append(out.A, ImplVal(v.Index(i)))
 		}
@@ -241,6 +242,9 @@ func (v Val) JSON() string {
 		xs := make([]string, len(v.A))
 		for i, x := range v.A {
 			xs[i] = x.JSON()
+		}
+		if v.Null {
+			return `{"a":[],"null":true}`
 		}
 		return `{"a":[` + strings.Join(xs, ",") + `]}`
 	}
